@@ -6,7 +6,7 @@ import codecs
 from typing import List, Optional, Set
 
 from ..cfg import CFG
-from ..core import AnalysisError, call_name, calls_in, const_str, dotted, is_self_attr, norm, walk_local, first_param
+from ..core import AnalysisError, call_name, calls_in, const_str, dotted, is_self_attr, norm, walk_local, first_param, param_names
 
 EXPLANATION = (
     "R16.1: encoder (unicode_to_file_data) and decoder (_decode_data) pick the encoding with the same function "
@@ -640,6 +640,18 @@ def cookie_line_rule(ctx, res, rule: str) -> None:
             f"{nlines} line(s) are examined for the encoding declaration, the interpreter examines 2: "
             + ("a declaration on line 2 (below a shebang) is not seen and the file is treated as UTF-8" if nlines < 2 else
                "a `coding:` comment further down, which the interpreter ignores, changes the codec rope uses"), function=f.qualname)
+    # (d) the lines are cut from the WHOLE text: a line has no maximum length (PEP 263 speaks of lines, not of bytes), and the
+    # same function answers for bytes (read) and str (write) -- a head of N items is N bytes on one side and N characters on the other
+    src_param = (param_names(f.node) or [None])[0]
+    cuts = [x for lp_ in loops for x in ast.walk(lp_.iter) if isinstance(x, ast.Subscript) and isinstance(x.slice, ast.Slice)
+            and isinstance(x.value, ast.Name) and x.value.id == src_param]
+    cuts += [x.value for x in walk_local(f.node) if isinstance(x, ast.Assign) and isinstance(x.value, ast.Subscript) and isinstance(x.value.slice, ast.Slice)
+             and isinstance(x.value.value, ast.Name) and x.value.value.id == src_param]
+    res.add(rule, "read_str_coding|whole-lines-examined", not cuts, f"{f.unit.rel}:{(cuts[0] if cuts else lp).lineno}",
+            "the two lines are cut from the whole text" if not cuts else
+            f"only `{ast.unparse(cuts[0])}` is cut into lines: a first line longer than that (a generated-file banner, a licence line) hides the declaration on line 2 -- the file is "
+            "read as UTF-8-or-latin-1 and WRITTEN as UTF-8 while it still declares its codec; and the bound counts bytes when reading and characters when writing, so the "
+            "two sides disagree for a line of multi-byte characters", function=f.qualname)
 
 
 def encoding_from_text_rule(ctx, res, rule: str) -> None:
